@@ -310,6 +310,48 @@ func genVersions(repo string) (string, error) {
 	if gemPat == "" {
 		return "", fmt.Errorf("ruby: anchoredVersion pattern not found")
 	}
-	out += fmt.Sprintf("/-- ruby/version.go `anchoredVersion`. -/\ndef gemPattern : String := %s\n", LeanString(gemPat))
+	out += fmt.Sprintf("/-- ruby/version.go `anchoredVersion`. -/\ndef gemPattern : String := %s\n\n", LeanString(gemPat))
+
+	// ---- gobin: the pattern of ParseVersion and the digit limit of fitInt32
+	_, gf, err := ParseFile(repo, "gobin/exe.go")
+	if err != nil {
+		return "", err
+	}
+	gobinPat := ""
+	ast.Inspect(gf, func(n ast.Node) bool {
+		vs, ok := n.(*ast.ValueSpec)
+		if !ok {
+			return true
+		}
+		for i, nm := range vs.Names {
+			if nm.Name != "versionRegex" || i >= len(vs.Values) {
+				continue
+			}
+			if call, ok := vs.Values[i].(*ast.CallExpr); ok && len(call.Args) == 1 {
+				if v, ok := strLit(call.Args[0]); ok {
+					gobinPat = v
+				}
+			}
+		}
+		return true
+	})
+	if gobinPat == "" {
+		return "", fmt.Errorf("gobin: versionRegex pattern not found")
+	}
+	out += fmt.Sprintf("/-- gobin/exe.go `versionRegex`. -/\ndef gobinPattern : String := %s\n\n", LeanString(gobinPat))
+	fit := FuncDecl(gf, "", "fitInt32")
+	if fit == nil {
+		return "", fmt.Errorf("gobin: fitInt32 not found")
+	}
+	var fitLits []int64
+	ast.Inspect(fit, func(n ast.Node) bool {
+		if bl, ok := n.(*ast.BasicLit); ok && bl.Kind == token.INT {
+			if v, err := IntLit(bl); err == nil {
+				fitLits = append(fitLits, v)
+			}
+		}
+		return true
+	})
+	out += fmt.Sprintf("/-- gobin/exe.go `fitInt32`: its integer literals in order (length limit, slice bound, zero, base, bit size). -/\ndef gobinFitLits : List Nat := %s\n", LeanNatList(fitLits))
 	return out + Footer("Versions"), nil
 }
